@@ -252,7 +252,7 @@ def model_call(ans):
 
 def describe(case):
     return {'cls': case['cls'], 'helper': case['helper'], 'reg': case['reg'], 'npos': case['npos'],
-            'given': case['given'],
+            'given': case['given'], 'order': case.get('order', 'helper'),
             'call': '%s(%r).%s(%s)' % (case['cls'], case['reg'], case['helper'], ', '.join(
                 [repr(make_value(d)) for _p, d in case['given'][:case['npos']]] +
                 ['%s=%r' % (p, make_value(d)) for p, d in case['given'][case['npos']:]]))}
@@ -290,6 +290,45 @@ def cases_for(cname, helper, rng, counter):
                     yield {'cls': cname, 'helper': helper,
                            'reg': REG_NAMESPACES[counter[0] % len(REG_NAMESPACES)],
                            'given': given, 'npos': npos}
+
+
+TWIN = {'Namespace': 'AsyncNamespace', 'AsyncNamespace': 'Namespace',
+        'ClientNamespace': 'AsyncClientNamespace', 'AsyncClientNamespace': 'ClientNamespace'}
+
+
+def documented_order_cases(cname, helper, counter):
+    """Positional calls written for the DOCUMENTED parameter order: the order of the same-named method
+    of the server / client class ('target'), and the order of the twin namespace class's helper
+    ('twin').  The k-th positional value is meant for the k-th parameter of that signature; k runs
+    while that parameter is shared by helper and target and no parameter that only the helper has
+    (ClientNamespace.send's vestigial `room`) occupies an earlier position of the helper."""
+    s = sio_mod()
+    fn = getattr(getattr(s, cname), helper, None)
+    tfn = getattr(getattr(s, CLASSES[cname][3]), helper, None)
+    twin = getattr(getattr(s, TWIN[cname]), helper, None)
+    if fn is None or tfn is None:
+        return
+    hparams = [p for p, _ in sig_params(fn)[0]]
+    tparams = [p for p, _ in sig_params(tfn)[0]]
+    required = [p for p, d in sig_params(fn)[0] if not d]
+    orders = [('target', tparams)]
+    if twin is not None:
+        orders.append(('twin', [p for p, _ in sig_params(twin)[0]]))
+    for label, intended in orders:
+        k = 0
+        while k < len(intended) and k < len(hparams) and intended[k] in hparams and \
+                intended[k] in tparams and hparams[k] in tparams:
+            k += 1
+            names = intended[:k]
+            if any(r not in names for r in required):
+                continue                    # a call without a required argument is not a documented call
+            for pat in ([['s', p] for p in names],
+                        [['f', (i + k) % 5] for i, _p in enumerate(names)],
+                        [['f', (i + k + 2) % 5] for i, _p in enumerate(names)]):
+                counter[0] += 1
+                yield {'cls': cname, 'helper': helper, 'order': label,
+                       'reg': REG_NAMESPACES[counter[0] % len(REG_NAMESPACES)],
+                       'given': [[p, d] for p, d in zip(names, pat)], 'npos': k}
 
 
 def validate_rows(ctx, rows):
@@ -369,7 +408,8 @@ def run(ctx):
         for cname, (helpers, _pa, _st, _pc) in CLASSES.items():
             for helper in helpers:
                 row = byname.get((cname, helper))
-                cases = list(cases_for(cname, helper, ctx.rng, counter))
+                cases = list(cases_for(cname, helper, ctx.rng, counter)) + \
+                    list(documented_order_cases(cname, helper, counter))
                 obss, ops, toks = [], [], []
                 for case in cases:
                     obs = execute(case, loop)
@@ -391,6 +431,7 @@ def run(ctx):
                 for i, (case, obs) in enumerate(zip(cases, obss)):
                     n_exec += 1
                     ctx.count('cls.' + cname)
+                    ctx.count('positional_order.' + case.get('order', 'helper'))
                     ctx.count('given_args.%d' % len(case['given']))
                     if any(d[0] == 'f' for _p, d in case['given']):
                         n_nontrivial += 1
@@ -400,7 +441,10 @@ def run(ctx):
                     if complaints:
                         stats['oracle_fail'] += 1
                         if stats['oracle_fail'] <= 40:
-                            ctx.violation('oracle', '%s.%s: %s' % (cname, helper, '; '.join(complaints[:3])),
+                            ctx.violation('oracle', '%s.%s%s: %s' % (cname, helper, {
+                                'target': ' called positionally in the parameter order of %s.%s' % (CLASSES[cname][3], helper),
+                                'twin': ' called positionally in the parameter order of %s.%s' % (TWIN[cname], helper),
+                            }.get(case.get('order'), ''), '; '.join(complaints[:3])),
                                           dict(rep, complaints=complaints))
                     if row is None:
                         continue
@@ -451,7 +495,8 @@ def run(ctx):
         'rows': len(rows), 'executions_per_helper': per_row,
         'rule': 'every helper of the four classes x every subset of its optional parameters given explicitly x '
                 '{all sentinels, five rotations of the falsy values 0, "", [], None, False, one random mix} x '
-                '{all by keyword, longest positional prefix, random split}; registered namespace rotates over '
+                '{all by keyword, longest positional prefix, random split}; plus positional calls of every length written '
+                'in the parameter order of the target method and of the twin class; registered namespace rotates over '
                 '%r. non-trivial = at least one explicit falsy argument' % (REG_NAMESPACES,),
         'samples': samples, 'traces_validated_against_impl': n_exec,
         'oracle_failures': stats['oracle_fail'], 'model_disagreements': stats['model_fail'],
